@@ -28,6 +28,7 @@ class _SingleEraCalculator(_EraCalculator):
     @classmethod
     def _ctor(cls, *, era: Era, ymd_calculator: _YearMonthDayCalculator) -> _SingleEraCalculator:
         self = super().__new__(cls)
+        super(_SingleEraCalculator, self).__init__(era)
         self.__min_year = ymd_calculator._min_year
         self.__max_year = ymd_calculator._max_year
         self.__era = era
